@@ -1,6 +1,8 @@
 mod conv;
 mod golden;
 mod ledger;
+mod literal;
+mod synproj;
 mod loader;
 mod price;
 mod report;
@@ -25,6 +27,8 @@ fn main() {
         "ledger" => runner::run_records(&opts, ledger::replay),
         "ledger-alias" => { let w = workdir.clone(); runner::run_records(&opts, move |i, r| ledger::replay_alias(i, r, &w)) }
         "conv" => { let w = workdir.clone(); runner::run_records(&opts, move |i, r| conv::replay(i, r, &w)) }
+        "literal" => runner::run_records(&opts, literal::replay),
+        "literal-space" => runner::run_records(&opts, literal::replay_space),
         "loader" => { let w = workdir.clone(); runner::run_records(&opts, move |i, r| loader::replay(i, r, &w)) }
         "price" => { let w = workdir.clone(); runner::run_records(&opts, move |i, r| price::replay(i, r, &w)) }
         "report" => { let w = workdir.clone(); runner::run_records(&opts, move |i, r| report::replay(i, r, &w)) }
